@@ -260,3 +260,61 @@ Lemma empty_wait_loop_exits fuel : 1 <= fuel -> empty_wait_loop true fuel = Some
 Proof. destruct fuel; [lia|reflexivity]. Qed.
 Lemma empty_wait_loop_spins : forall fuel, empty_wait_loop false fuel = None.
 Proof. induction fuel as [|f IH]; [reflexivity|]. cbn [empty_wait_loop]. rewrite IH. reflexivity. Qed.
+
+(* ------------------------------------------------------------------ (E) a waiting reader with a filter *)
+Local Notation cnt l := (count_occ Bool.bool_dec l true).
+
+Lemma scan_spec rest : match scan rest with
+                       | (true, tl) => cnt rest = S (cnt tl)
+                       | (false, tl) => cnt rest = 0 /\ tl = []
+                       end.
+Proof.
+  induction rest as [|b tl IH]; [cbn; auto|]. destruct b; cbn [scan].
+  - cbn. destruct (Bool.bool_dec true true); [reflexivity|congruence].
+  - destruct (scan tl) as [[|] tl']; cbn; destruct (Bool.bool_dec false true); try discriminate; exact IH.
+Qed.
+
+Lemma src_get_spec f : fs_eof f = false ->
+  match src_get true f with
+  | (true, f') => cnt (fs_rest f) = S (cnt (fs_rest f')) /\ fs_eof f' = false
+  | (false, f') => cnt (fs_rest f) = 0 /\ fs_rest f' = []
+  end.
+Proof.
+  intros E. unfold src_get. rewrite E, Bool.andb_false_r. pose proof (scan_spec (fs_rest f)) as H.
+  destruct (scan (fs_rest f)) as [[|] tl]; cbn [fs_rest fs_eof]; [auto|]. destruct H as [H _]. auto.
+Qed.
+
+Lemma get_all_spec : forall l, Forall (fun f => fs_eof f = false) l ->
+  match get_all true l with
+  | (true, l') => unread_matching l = S (unread_matching l')
+  | (false, l') => unread_matching l = 0 /\ unread_matching l' = 0 /\ fwoken l' = false
+  end.
+Proof.
+  induction l as [|f tl IH]; intros F; [cbn; auto|]. inversion F as [|? ? Ef Ft]; subst.
+  cbn [get_all]. pose proof (src_get_spec f Ef) as H. destruct (src_get true f) as [[|] f'].
+  - destruct H as [H _]. cbn [unread_matching fold_right]. fold (unread_matching tl). lia.
+  - destruct H as [H1 H2]. specialize (IH Ft). destruct (get_all true tl) as [[|] tl'].
+    + cbn [unread_matching fold_right]. fold (unread_matching tl) (unread_matching tl'). rewrite H2. cbn. lia.
+    + destruct IH as (I1 & I2 & I3). cbn [unread_matching fold_right fwoken existsb]. fold (unread_matching tl) (unread_matching tl') (fwoken tl').
+      rewrite H2, I3. cbn. repeat split; lia.
+Qed.
+
+Lemma clear_all l : Forall (fun f => fs_eof f = false) (map clear_eof l) /\ unread_matching (map clear_eof l) = unread_matching l.
+Proof.
+  split; [apply Forall_forall; intros f Hf; apply in_map_iff in Hf; destruct Hf as (g & <- & _); reflexivity|].
+  induction l as [|f tl IH]; [reflexivity|]. cbn [map unread_matching fold_right clear_eof fs_rest]. fold (unread_matching (map clear_eof tl)) (unread_matching tl). lia.
+Qed.
+
+(* the round of the code's variant *)
+Lemma fround_spec l :
+  match fround true true l with
+  | (true, l') => unread_matching l = S (unread_matching l')
+  | (false, l') => unread_matching l = 0 /\ unread_matching l' = 0 /\ fwoken l' = false
+  end.
+Proof.
+  unfold fround. destruct (clear_all l) as (F & U). pose proof (get_all_spec _ F) as H. rewrite U in H. exact H.
+Qed.
+
+(* a Release that does not reach the sources: a fixed point of the round on which WaitNewData returns at once *)
+Lemma frounds_stuck refreshes l : fround false refreshes l = (false, l) -> forall n, frounds false refreshes n l = (false, l).
+Proof. intros H. induction n as [|n IH]; [reflexivity|]. cbn [frounds]. rewrite H. exact IH. Qed.
